@@ -25,7 +25,7 @@ Bind  == {"post", "redirect"}
 
 \* endpoint: the SP publishes an assertion-consumer endpoint for the arrival binding, or only for the other one
 Scn == [irt : Irt, sirt : Sirt, dest : Dest, aud : Aud, recip : Recip, allow : BOOLEAN,
-        conv : BOOLEAN, regex : BOOLEAN, binding : Bind, enc : BOOLEAN, endpoint : {"configured", "otherBindingOnly"},
+        conv : BOOLEAN, regex : BOOLEAN, binding : Bind, enc : BOOLEAN, endpoint : {"configured", "otherBindingOnly", "triples"},
         \* a second bearer confirmation with the same window and InResponseTo whose Recipient is ours or somebody else's,
         \* placed before or after the first one
         conf2 : {"absent", "own", "foreign"}, conf2first : BOOLEAN,
@@ -34,10 +34,14 @@ Scn == [irt : Irt, sirt : Sirt, dest : Dest, aud : Aud, recip : Recip, allow : B
         \* an authentication response over a browser binding, or the answer to an attribute query (synchronous, SOAP:
         \* no solicitation bookkeeping, no Destination check -- but the audience restrictions bind all the same)
         mtype : {"authn", "attribute"}]
+\* "triples": the same two endpoints written as (location, binding, index) -- the third form the metadata generator
+\* accepts.  Config.endpoint does not unpack it: nothing ever equals such an entry.
 \* without an endpoint for the arrival binding only the addressing dimensions are varied
 WellFormed(s) == /\ s.endpoint = "otherBindingOnly" =>
                     /\ s.dest \in {"otherBinding", "patternOnly", "foreign", "none"} /\ s.recip \in {"otherBinding", "entityid", "foreign"}
                     /\ s.aud = "me" /\ ~s.enc /\ s.irt = "id1" /\ s.sirt = "id1"
+                 /\ (s.endpoint = "triples" => /\ s.aud = "me" /\ ~s.enc /\ s.irt = "id1" /\ s.sirt = "id1" /\ s.conf2 = "absent" /\ ~s.sameFrom
+                                             /\ s.mtype = "authn" /\ s.dest # "patternOnly")
                  /\ (s.mtype = "attribute" => /\ s.endpoint = "configured" /\ s.conf2 = "absent" /\ ~s.sameFrom /\ ~s.regex /\ ~s.enc
                                              /\ s.dest = "none" /\ s.irt = "id1" /\ s.sirt = "id1" /\ s.recip = "url" /\ s.binding = "post" /\ ~s.conv)
                  /\ (s.conf2 = "absent" => ~s.conf2first)
@@ -77,6 +81,7 @@ Loads ==
 DestOK == CASE scn.dest = "none" -> TRUE
             [] scn.regex -> scn.dest \in {"own", "otherBinding", "patternOnly"}     \* the pattern decides alone
             [] scn.endpoint = "otherBindingOnly" -> FALSE                           \* no return_addrs: "x not in None" raises
+            [] scn.endpoint = "triples" -> FALSE                                    \* return_addrs holds tuples
             [] OTHER -> scn.dest = "own"                                            \* return_addrs of this binding
 Destination == pc = "destination" /\ IF DestOK THEN Goto("conditions") ELSE Reject
 
@@ -106,7 +111,7 @@ Subject ==
 (* Contract, from the property text                                        *)
 (***************************************************************************)
 AudOK == \A i \in 1..Len(Restr(scn.aud)) : "me" \in Restr(scn.aud)[i]
-DestAllowed == scn.dest = "none" \/ (scn.dest = "own" /\ scn.endpoint = "configured")
+DestAllowed == scn.dest = "none" \/ (scn.dest = "own" /\ scn.endpoint \in {"configured", "triples"})
                \/ (scn.regex /\ scn.dest \in {"otherBinding", "patternOnly"})
 Solicited == scn.irt \in Outstanding /\ (scn.sirt = "none" \/ scn.sirt = scn.irt)
 MustReject == \/ ~AudOK
